@@ -77,8 +77,19 @@ def _inl(tokens) -> tuple:
     return tuple(x for x in fin if x != ("T", ""))
 
 
+def _body(text: str) -> str:
+    """Without a leading frontmatter block (not Markdown; C07 judges it)."""
+    if text.startswith("---"):
+        from vf.astn import split_frontmatter_ref
+        fm_, body = split_frontmatter_ref(text)
+        if fm_:
+            return body
+    return text
+
+
 def tokens(text: str) -> list:
     out = []
+    text = _body(text)
     for t in _md.parse(text):
         if t.type == "inline":
             out.append(("INL", _inl(t.children)))
@@ -114,7 +125,7 @@ _KIND = {"heading_open": "H", "paragraph_open": "P", "bullet_list_open": "LIST",
 
 def skeleton(text: str) -> list[str]:
     """Pre-order sequence of block kinds as markdown-it reads the text."""
-    return [_KIND[t.type] for t in _md.parse(text) if t.type in _KIND]
+    return [_KIND[t.type] for t in _md.parse(_body(text)) if t.type in _KIND]
 
 
 def skeleton_of_tree(node, out=None) -> list[str]:
